@@ -762,56 +762,48 @@ def setUsedH (s : State) (h used : Nat) : Out Unit :=
     | none => .fault "printf: freed buffer"
     | some x => .ok (s.setBuf b { x with used := used }) ()
 
+/-- `buf->_used = used + n; return n;` -/
+def printfFinish (s : State) (h used n : Nat) : Out Nat :=
+  match setUsedH s h (used + n) with
+  | .ok s1 _ => .ok s1 n
+  | .fail s1 e => .fail s1 e
+  | .fault w => .fault w
+
+/-- second attempt of `mpt_vprintf` after the text did not fit into `len` bytes -/
+def printfRetry (s2 : State) (h used len : Nat) (text : List Byte) : Out Nat :=
+  let n := text.length
+  let len2 := (n / 64 + 1) * 64
+  match arraySlice s2 h used (max len len2) with
+  | .ok s3 _ =>
+    match snprintfAt s3 h used (max len len2) text with
+    | .ok s4 _ => if n = 0 then .fail s4 (.err .BadValue) else printfFinish s4 h used n
+    | .fail s4 e => .fail s4 e
+    | .fault w => .fault w
+  | .fail s3 _ => .fail s3 (.err .BadOperation)
+  | .fault w => .fault w
+
+/-- `mpt_vprintf` after the buffer has been checked: slice `len` bytes behind `used`, print, adjust -/
+def printfTail (s0 : State) (h used len : Nat) (text : List Byte) : Out Nat :=
+  let n := text.length
+  match arraySlice s0 h used len with
+  | .ok s1 _ =>
+    match snprintfAt s1 h used len text with
+    | .ok s2 _ => if n = 0 ∨ n < len then printfFinish s2 h used n else printfRetry s2 h used len text
+    | .fail s2 e => .fail s2 e
+    | .fault w => .fault w
+  | .fail s1 _ => .fail s1 (.err .BadOperation)
+  | .fault w => .fault w
+
 /-- `mpt_printf(arr, "%s", text)`; `ct` = the library's traits of `'c'`; `text` has no zero byte -/
 def arrayPrintf (s : State) (h : Nat) (ct : Traits) (text : List Byte) : Out Nat :=
-  let n := text.length
-  -- (state, used, len) after the preparation
-  let prep : Out (Nat × Nat) :=
-    match s.handle h with
-    | none =>
-      let nb := s.bufs.length
-      .ok ((s.newBuf 64 0 (some ct)).setHandle h (some nb)) (0, allocSize 64)
-    | some b =>
-      match s.buf? b with
-      | none => .fault "printf: freed buffer"
-      | some x =>
-        if x.traits ≠ some ct then .fail s (.err .BadType)
-        else .ok s (x.used, (x.size - x.used + 63) / 64 * 64)
-  match prep with
-  | .ok s0 ul =>
-    let used := ul.1
-    let len := ul.2
-    match arraySlice s0 h used len with
-    | .ok s1 _ =>
-      match snprintfAt s1 h used len text with
-      | .ok s2 _ =>
-        if n = 0 ∨ n < len then
-          match setUsedH s2 h (used + n) with
-          | .ok s3 _ => .ok s3 n
-          | .fail s3 e => .fail s3 e
-          | .fault w => .fault w
-        else
-          let len2 := (n / 64 + 1) * 64
-          match arraySlice s2 h used (max len len2) with
-          | .ok s3 _ =>
-            match snprintfAt s3 h used (max len len2) text with
-            | .ok s4 _ =>
-              if n = 0 then .fail s4 (.err .BadValue)
-              else
-                match setUsedH s4 h (used + n) with
-                | .ok s5 _ => .ok s5 n
-                | .fail s5 e => .fail s5 e
-                | .fault w => .fault w
-            | .fail s4 e => .fail s4 e
-            | .fault w => .fault w
-          | .fail s3 _ => .fail s3 (.err .BadOperation)
-          | .fault w => .fault w
-      | .fail s2 e => .fail s2 e
-      | .fault w => .fault w
-    | .fail s1 _ => .fail s1 (.err .BadOperation)
-    | .fault w => .fault w
-  | .fail s0 e => .fail s0 e
-  | .fault w => .fault w
+  match s.handle h with
+  | none => printfTail ((s.newBuf 64 0 (some ct)).setHandle h (some s.bufs.length)) h 0 (allocSize 64) text
+  | some b =>
+    match s.buf? b with
+    | none => .fault "printf: freed buffer"
+    | some x =>
+      if x.traits ≠ some ct then .fail s (.err .BadType)
+      else printfTail s h x.used ((x.size - x.used + 63) / 64 * 64) text
 
 /-- `mpt_array_string(arr)`: the static `traits` pointer is never set, so every call is refused -/
 def arrayString (s : State) (_h : Nat) : Out Unit := .fail s .null
@@ -832,60 +824,59 @@ def fastAppend (s : State) (h b : Nat) (w : Win) (nblk esz : Nat) (bytes : List 
       .ok ((setUsed s b x (Mem.write x.data pos (bytes.take take)) (max x.used (pos + take))).setWin h
             (some { off := w.off, len := w.len + take })) count
 
+/-- repair of an inconsistent window (`off + len` behind the used size) -/
+def winRepair (w0 : Win) (used : Nat) : Win :=
+  if w0.off + w0.len > used then
+    (if w0.off ≥ used then { off := used, len := 0 } else { off := w0.off, len := used - w0.off })
+  else w0
+
+/-- the bytes of the window -/
+def sliceKeep (bx : Option Buf) (w : Win) : List Byte :=
+  match bx with
+  | some x => (x.data.drop w.off).take w.len
+  | none => []
+
+/-- no room in place: a new buffer gets the window data and all blocks; the handle's old buffer (if any) loses
+    its reference -/
+def sliceSlow (s : State) (h : Nat) (w : Win) (bx : Option Buf) (nblk esz : Nat) (bytes : List Byte) : Out Nat :=
+  let nb := s.bufs.length
+  let s1 := s.newBuf (w.len + nblk * esz) 0
+  match s1.buf? nb with
+  | none => .fault "slice_write: freed buffer"
+  | some z =>
+    if (sliceKeep bx w).length ≠ w.len then .fault "slice_write: window outside the buffer"
+    else
+      match replaceBuf ((setUsed s1 nb z (Mem.write z.data 0 (sliceKeep bx w ++ bytes.take (nblk * esz))) (w.len + nblk * esz)).setWin h
+          (some { off := 0, len := w.len + nblk * esz })) h (some nb) (s.handle h) with
+      | .ok s3 _ => .ok s3 nblk
+      | .fail s3 e => .fail s3 e
+      | .fault w => .fault w
+
+/-- the window data is moved to the front of the (private) buffer -/
+def sliceFront (s : State) (h b : Nat) (x : Buf) (w : Win) : State :=
+  (setUsed s b x (if w.len ≠ 0 then Mem.move x.data 0 w.off w.len else x.data) w.len).setWin h (some { off := 0, len := w.len })
+
 /-- `mpt_slice_write(sl, nblk, from, size)` with `size ≠ 0`; `bytes` = `nblk * size` source bytes -/
 def sliceWrite (s : State) (h nblk esz : Nat) (bytes : List Byte) : Out Nat :=
   let w0 : Win := (s.win h).getD { off := 0, len := 0 }
-  let buf := s.handle h
-  let bx : Option Buf := buf.bind s.buf?
-  let typed : Bool := match bx with
-    | some x => x.traits.isSome
-    | none => false
-  if buf.isSome ∧ bx.isNone then .fault "slice_write: freed buffer"
-  else if typed then .fail s (.err .BadType)
-  else
-    let used := match bx with
-      | some x => x.used
-      | none => 0
-    -- repair an inconsistent window
-    let w : Win :=
-      if w0.off + w0.len > used then
-        (if w0.off ≥ used then { off := used, len := 0 } else { off := w0.off, len := used - w0.off })
-      else w0
-    let s := s.setWin h (some w)
-    let pos := w.off + w.len
-    let avail := (match bx with | some x => x.size | none => 0) - pos
-    let slow : Out Nat :=
-      let nb := s.bufs.length
-      let s1 := s.newBuf (w.len + nblk * esz) 0
-      match s1.buf? nb with
-      | none => .fault "slice_write: freed buffer"
-      | some z =>
-        let keep : List Byte := match bx with
-          | some x => (x.data.drop w.off).take w.len
-          | none => []
-        if keep.length ≠ w.len then .fault "slice_write: window outside the buffer"
-        else
-          let s2 := ((setUsed s1 nb z (Mem.write z.data 0 (keep ++ bytes.take (nblk * esz))) (w.len + nblk * esz)).setHandle h (some nb)).setWin h
-            (some { off := 0, len := w.len + nblk * esz })
-          match buf with
-          | none => .ok s2 nblk
-          | some b =>
-            match unref s2 b with
-            | .ok s3 _ => .ok s3 nblk
-            | .fail s3 e => .fail s3 e
-            | .fault w => .fault w
-    match buf, bx with
-    | some b, some x =>
-      if ¬ (x.immutable ∨ x.shared) then
-        if nblk = 0 then .ok s 0
-        else if avail ≥ esz then fastAppend s h b w nblk esz bytes
-        else if w.off ≠ 0 ∧ avail + w.off ≥ esz then
-          let d := if w.len ≠ 0 then Mem.move x.data 0 w.off w.len else x.data
-          let s1 := (setUsed s b x d w.len).setWin h (some { off := 0, len := w.len })
-          fastAppend s1 h b { off := 0, len := w.len } nblk esz bytes
-        else slow
-      else slow
-    | _, _ => slow
+  match s.handle h with
+  | none => sliceSlow (s.setWin h (some (winRepair w0 0))) h (winRepair w0 0) none nblk esz bytes
+  | some b =>
+    match s.buf? b with
+    | none => .fault "slice_write: freed buffer"
+    | some x =>
+      if x.traits.isSome then .fail s (.err .BadType)
+      else
+        let w := winRepair w0 x.used
+        let s := s.setWin h (some w)
+        let avail := x.size - (w.off + w.len)
+        if ¬ (x.immutable ∨ x.shared) then
+          if nblk = 0 then .ok s 0
+          else if avail ≥ esz then fastAppend s h b w nblk esz bytes
+          else if w.off ≠ 0 ∧ avail + w.off ≥ esz then
+            fastAppend (sliceFront s h b x w) h b { off := 0, len := w.len } nblk esz bytes
+          else sliceSlow s h w (some x) nblk esz bytes
+        else sliceSlow s h w (some x) nblk esz bytes
 
 /-! ### compositions used by callers of the buffer-level interface (and by the harness) -/
 
@@ -946,6 +937,17 @@ def sourcesInit (s : State) (k : Nat) : State :=
 /-- the caller destroys its `k` source elements again -/
 def sourcesFini (s : State) (first k : Nat) : State :=
   { s with log := s.log ++ (List.range k).map fun i => Ev.fini (first + i) }
+
+/-- `mpt_array_set(arr, traits, k elements, data, off)` as callers perform it: with `withSrc` the caller
+    constructs `k` source elements, passes them as data and destroys them afterwards; otherwise the data pointer is
+    NULL (default construction) -/
+def setOpE (s : State) (h : Nat) (t : Traits) (off : Int) (k : Nat) (withSrc : Bool) : Out Nat :=
+  if withSrc then
+    match arraySet (sourcesInit s k) h (some t) (sourcesBytes s.next k t.size) true off with
+    | .ok s' v => .ok (sourcesFini s' s.next k) v
+    | .fail s' e => .fail (sourcesFini s' s.next k) e
+    | .fault w => .fault w
+  else arraySet s h (some t) (zeros (k * t.size)) false off
 
 /-- constructions done by the caller in library-provided memory (never refused) -/
 def ctorLoop : Nat → State → Nat → Nat → Nat → Out Unit
